@@ -18,6 +18,7 @@ RULE = ("Hypothesis: arbitrary relative message lists (<= 24 messages) over 2 ch
         "contains a re-trigger, nested pair, orphan off, unclosed on or repeated signature. Distinct by case digest.")
 RULE = RULE + " Round g: control changes (controllers 120, 123, 121, 64, 7, 0) and program changes between the notes."
 RULE = RULE + " Round h: signature numerators 300/1000 and denominator 512 held by distinct int objects; velocities from a small pool."
+RULE = RULE + " Round i: second phase on the same object (in-place edit keeping the message count, normalise again)."
 ASSUMPTIONS = ["which velocity a fused note keeps is not part of the statement",
                "non-note, non-signature events are not generated (their treatment is not part of the statement)"]
 TIERS = {"quick": dict(shards=8, examples=2500, alt_ppqn=[480], alt_shards=2),
@@ -64,7 +65,10 @@ def _case(draw, size=1):
         if draw(st.booleans()):
             rep.append(["w", draw(st.integers(1, 9))])
         msgs = rep
-    return {"msgs": msgs, "share": draw(st.sampled_from([False, False, True]))}
+    case = {"msgs": msgs, "share": draw(st.sampled_from([False, False, True]))}
+    if not case["share"]:
+        case["then"] = draw(st.sampled_from([None, None, "set_channel", "same_pitch"]))
+    return case
 
 
 def strategy(params, shard, nshards):
@@ -196,4 +200,25 @@ def check(case):
             return out
         if O.canon(O.rel_events(seq._rel)) != O.canon((ev, dur)):
             out.fail("not-idempotent", f"{before} -> {after}")
+    if case.get("then") and not out.violations:
+        # history on the same object: an in-place edit that keeps the number of messages but can make the content ill-formed again
+        # (two channels joined, pitches made equal), then normalise once more: the first clause must hold again
+        out.label("edited-then-normalised-again:" + case["then"])
+        try:
+            if case["then"] == "set_channel":
+                seq.set_channel(0)
+            else:
+                for m in seq.messages_rel():
+                    if m.note is not None:
+                        m.note = 60
+            dur_mid = O.rel_events(seq._rel)[1]
+            seq.normalise()
+            ev2, dur2 = O.rel_events(seq._rel)
+        except O.Malformed as e:
+            out.fail("malformed-output", f"second phase: {e}")
+            return out
+        except Exception as e:
+            out.fail("normalise-raises", f"second phase: {type(e).__name__}: {e}")
+            return out
+        _verify(out, ev2, dur2, dur_mid, "second-phase:")
     return out
